@@ -10,7 +10,8 @@ SK = {"extend_with": 60, "ArrDest": 660, "MINIDUMP_EXCEPTION": 20, "alloc_from_a
 def K(n, d, tier="quick", **kw): return H("c19_dump::" + n, desc=d, tier=tier, loops=SK, timeout=3000, est_gb=16, mem_gb=34, fs_array=1024, **kw)
 HARNESSES = [
     H("c19_dump::g_dump_fresh", desc="directory accounting at the DirSection boundary: 20 flushes, 18 entries in the fixed order, types unique, locations chained and inside what is flushed", loops={"MINIDUMP_EXCEPTION": 20, "alloc_from_array": 8}, timeout=2400, est_gb=8, mem_gb=24),
-    H("c19_dump::g_dump_all_best_effort_fail", desc="directory accounting when every best-effort stream fails: all-zero entries", loops={"MINIDUMP_EXCEPTION": 20, "alloc_from_array": 8}, timeout=2400, est_gb=8, mem_gb=24),
+    H("c19_dump::g_dump_handles_fail", desc="directory accounting when a best-effort stream fails: all-zero entry, every other entry as usual", loops={"MINIDUMP_EXCEPTION": 20, "alloc_from_array": 8}, timeout=2400, est_gb=8, mem_gb=24),
+    H("c19_dump::g_dump_all_best_effort_fail", desc="directory accounting when every best-effort stream fails: all-zero entries", loops={"MINIDUMP_EXCEPTION": 20, "alloc_from_array": 8}, timeout=2400, est_gb=30, mem_gb=40, tier="thorough"),
     K("c19_dump_fresh", "byte-level directory accounting with the real DirSection and a 640-byte destination", "thorough"),
     H("c15_thread_names::c15_n2_un_na", loops={"extend_with": 60}, desc="thread-name stream layout: count header + array + blobs, disjoint, inside the image"),
     H("c15_thread_names::c15_n3_na_un_na", loops={"extend_with": 60}, desc="thread-name stream layout, 3 threads"),
